@@ -56,6 +56,9 @@ CHECKS = {
  "C18": dict(category="exploration", technique="exhaustive enumeration of key subsets x ALL orderings (metamorphic order-independence against a typed-in priority table) plus Hypothesis-generated larger subsets, type-like keys, merge pairs and permuted GenBank feature tables",
    text="Name/ID choice for all subsets (size<=4 quick, <=5 thorough) of 9 recognised + 9 look-alike keys in every ordering and four letter-case patterns, /note fallback, feature-type collection from *_class / gbkey / *_type keys, merge_qualifiers as key-wise sorted union that commutes and leaves operands alone, and LOCUS_TAG-mode GenBank parsing of the same record under permutations of its feature table.",
    note="Known finding F17 (rank-0 key treated as unset; pinned by the repository's own test). GenBank leg compares genes (feature collections take name/id from their first record by design).", ref="DESIGN.md §5 C18"),
+ "C19": dict(category="fault_enumeration", technique="systematic argument corruption (one invalid value per constructor argument, ~75 kinds) and a boundary-argument sweep of a registry of public methods over Hypothesis-generated valid objects; outcome classified against the documented exception types and structural validators",
+   text="Every corruption must raise a documented exception (BioCantorException subclass, ValueError, NotImplementedError) or yield an object that passes the structural validators; every registry method on valid locations, transcripts/CDS, features, genes, collections and variants (on no parent, chromosome, and chunks that cut or miss the object) with 0, len-1, len, len+1, window==length and zero-length arguments must return a well-formed value or a documented exception - AttributeError, IndexError, KeyError, RecursionError, UnboundLocalError, NameError, ZeroDivisionError, leaked StopIteration and call-signature TypeErrors are violations.",
+   note="Wrong argument types and out-of-enumeration strings in dictionaries are out of scope. The registry of methods is in checks/c19.py.", ref="DESIGN.md §5 C19"),
  "C20": dict(category="exploration", technique="Hypothesis-generated genes / feature collections with engineered ties (shifted copies), strand and coding mixes and primary flags, judged by min/max, set union and an explicit argmax model",
    text="Span, is_coding, feature types, merged transcript/CDS/feature position sets, primary selection (single flag, several flags refused, else longest CDS then longest spliced length then list position), primary sequence/CDS/protein accessors against the chosen child's values, and start-ordered stable iteration of annotation collections.",
    note="Merged blocks are required to be sorted, disjoint and to cover exactly the union; merging of adjacent blocks is not demanded.", ref="DESIGN.md §5 C20"),
